@@ -210,6 +210,14 @@ func (r *Reader) GetObject(objNum int) (core.Object, error) {
 
 // getUncompressedObject reads an object directly from the file
 func (r *Reader) getUncompressedObject(objNum int, entry *core.XRefEntry) (core.Object, error) {
+	// We may be called while another parser is in the middle of reading an object
+	// from the same file (an indirect /Length is resolved from inside parseStream).
+	// That parser's buffered reader continues from the file's current offset once
+	// its read-ahead is used up, so put the offset back when we are done.
+	if prev, err := r.file.Seek(0, io.SeekCurrent); err == nil {
+		defer r.file.Seek(prev, io.SeekStart)
+	}
+
 	// Seek to object position
 	_, err := r.file.Seek(entry.Offset, io.SeekStart)
 	if err != nil {
